@@ -100,6 +100,7 @@ class Translator:
         self.defs = []         # lean text in dependency order
         self.names_used = set()
         self.raises = set()    # (class, method) that raise unconditionally
+        self.meta = {}         # lean name -> dict(reads, callees, has_m, has_pt)
 
     # ------------------------------------------------------------------ class helpers
     def mro(self, cname):
@@ -170,7 +171,7 @@ class Translator:
                 for p in params:
                     env[p] = ('var', R)
                 lean_params = '(c : Consts) ' + ' '.join('(%s : K)' % self.safe(p) for p in params)
-        ctx = dict(cls=cls, defcls=defcls, fname=node.name, callees=[])
+        ctx = dict(cls=cls, defcls=defcls, fname=node.name, callees=[], reads=set(), callmap={}, aenv={}, ret_abs=[], mreads=set())
         body, typ = self.block(node.body, env, ctx)
         sig = (defcls, node.name, spec, tuple(ctx['callees']))
         key = hashlib.sha1(repr(sig).encode()).hexdigest()
@@ -187,8 +188,15 @@ class Translator:
         self.names_used.add(name)
         lty = self.lean_type(typ)
         self.defs.append('def %s %s : %s :=\n%s\n' % (name, lean_params, lty, body))
+        self.meta[name] = dict(reads=set(ctx['reads']), callees=list(ctx['callees']), has_m='(m : CFFs)' in lean_params,
+                               has_pt='(pt : Pt)' in lean_params, typ=typ, vanish=self.vanish_of(ctx['ret_abs'], typ), mreads=set(ctx['mreads']), cls=cls, defcls=defcls, pyname=node.name, spec=spec)
         self.emitted[key] = (name, typ)
         return name, typ
+
+    def vanish_of(self, rets, typ):
+        if typ != R or not rets or any(r[0] != 'R' for r in rets):
+            return {}
+        return {c: all(r[1][c] for r in rets) for c in self.CONDS}
 
     def lean_type(self, t):
         if t == R:
@@ -219,6 +227,7 @@ class Translator:
                 continue
             if isinstance(st, ast.Return):
                 e, t = self.expr(st.value, env, ctx)
+                ctx['ret_abs'].append(self.absval(st.value, ctx['aenv'], ctx))
                 lines.append(indent + e)
                 return '\n'.join(lines), t
             if isinstance(st, ast.Raise):
@@ -229,6 +238,7 @@ class Translator:
                 tgt = st.targets[0]
                 if isinstance(tgt, ast.Name):
                     e, t = self.expr(st.value, env, ctx)
+                    ctx['aenv'][tgt.id] = self.absval(st.value, ctx['aenv'], ctx)
                     v = self.safe(tgt.id)
                     lines.append('%slet %s : %s := %s' % (indent, v, self.lean_type(t), e))
                     env[tgt.id] = ('var', t)
@@ -237,6 +247,9 @@ class Translator:
                         if len(st.value.elts) != len(tgt.elts):
                             raise Reject('tuple arity')
                         vals = [self.expr(v, env, ctx) for v in st.value.elts]   # evaluate all first
+                        avs = [self.absval(v, ctx['aenv'], ctx) for v in st.value.elts]
+                        for x, av in zip(tgt.elts, avs):
+                            ctx['aenv'][x.id] = av
                         for x, (e, t) in zip(tgt.elts, vals):
                             lines.append('%slet %s : %s := %s' % (indent, self.safe(x.id) + '__', self.lean_type(t), e))
                         for x, (e, t) in zip(tgt.elts, vals):
@@ -248,7 +261,10 @@ class Translator:
                             raise Reject('unpacking non-tuple')
                         lines.append('%slet tup__ : %s := %s' % (indent, self.lean_type(t), e))
                         n = len(t)
+                        av = self.absval(st.value, ctx['aenv'], ctx)
                         for k, x in enumerate(tgt.elts):
+                            if av[0] == 'T' and len(av[1]) == n:
+                                ctx['aenv'][x.id] = av[1][k]
                             proj = 'tup__' + '.2' * k + ('.1' if k < n - 1 else '')
                             lines.append('%slet %s : %s := %s' % (indent, self.safe(x.id), self.lean_type(t[k]), proj))
                             env[x.id] = ('var', t[k])
@@ -277,6 +293,88 @@ class Translator:
             lines.append(indent + 'pt')
             return '\n'.join(lines), 'Pt'
         raise Reject('%s: no return' % ctx['fname'])
+
+    # ------------------------------------------------------------------ vanishing analysis
+    # For each condition on the model values (CONDS) decide syntactically (sound, not complete)
+    # whether an expression is identically zero.  Real expressions: flag; complex: (re flag, im flag).
+    IMS = ['ImH', 'ImE', 'ImHt', 'ImEt', 'ImHeff', 'ImEeff', 'ImHteff', 'ImEteff']
+    RES = ['ReH', 'ReE', 'ReHt', 'ReEt', 'ReHeff', 'ReEeff', 'ReHteff', 'ReEteff']
+    VEC = ['ReH', 'ImH', 'ReE', 'ImE', 'ReHeff', 'ImHeff', 'ReEeff', 'ImEeff']
+    AX = ['ReHt', 'ImHt', 'ReEt', 'ImEt', 'ReHteff', 'ImHteff', 'ReEteff', 'ImEteff']
+    CONDS = {'always': [], 'realCFFs': IMS, 'zeroCFFs': IMS + RES, 'zeroEFF': ['F1', 'F2'], 'zeroVec': VEC, 'zeroAx': AX}
+
+    def aR(self, f):
+        return ('R', {c: f(c) for c in self.CONDS})
+
+    def absval(self, node, aenv, ctx):
+        T = lambda: self.aR(lambda c: False)
+        if isinstance(node, ast.Constant):
+            if isinstance(node.value, complex):
+                return ('C', {c: (True, False) for c in self.CONDS})
+            z = isinstance(node.value, (int, float)) and not isinstance(node.value, bool) and node.value == 0
+            return self.aR(lambda c: z)
+        if isinstance(node, ast.Name):
+            return aenv.get(node.id, T())
+        if isinstance(node, ast.Tuple):
+            return ('T', [self.absval(e, aenv, ctx) for e in node.elts])
+        if isinstance(node, ast.UnaryOp):
+            return self.absval(node.operand, aenv, ctx)
+        if isinstance(node, ast.Attribute):
+            if node.attr in ('real', 'imag'):
+                v = self.absval(node.value, aenv, ctx)
+                if v[0] == 'C':
+                    k = 0 if node.attr == 'real' else 1
+                    return self.aR(lambda c: v[1][c][k])
+            return T()
+        if isinstance(node, ast.BinOp):
+            a, b = self.absval(node.left, aenv, ctx), self.absval(node.right, aenv, ctx)
+            if a[0] == 'T' or b[0] == 'T':
+                return T()
+            op = node.op
+            if isinstance(op, ast.Pow):
+                return a if a[0] == 'R' else T()
+            cx = a[0] == 'C' or b[0] == 'C'
+
+            def lift(v, c):
+                return v[1][c] if v[0] == 'C' else (v[1][c], True)
+            if not cx:
+                if isinstance(op, ast.Mult):
+                    return self.aR(lambda c: a[1][c] or b[1][c])
+                if isinstance(op, (ast.Add, ast.Sub)):
+                    return self.aR(lambda c: a[1][c] and b[1][c])
+                if isinstance(op, ast.Div):
+                    return self.aR(lambda c: a[1][c])
+                return T()
+            out = {}
+            for c in self.CONDS:
+                (ar, ai), (br, bi) = lift(a, c), lift(b, c)
+                if isinstance(op, (ast.Add, ast.Sub)):
+                    out[c] = (ar and br, ai and bi)
+                elif isinstance(op, ast.Mult):
+                    out[c] = ((ar or br) and (ai or bi), (ar or bi) and (ai or br))
+                elif isinstance(op, ast.Div):
+                    # (a+bi)/(c+di) ∝ (ac+bd) + (bc-ad) i
+                    out[c] = ((ar or br) and (ai or bi), (ai or br) and (ar or bi))
+                else:
+                    out[c] = (False, False)
+            return ('C', out)
+        if isinstance(node, ast.Call):
+            f = node.func
+            if isinstance(f, ast.Attribute) and isinstance(f.value, ast.Attribute) and isinstance(f.value.value, ast.Name) \
+                    and f.value.value.id == 'self' and f.value.attr == self.model_attr:
+                if f.attr == 'cff':
+                    names = ['ReH', 'ImH', 'ReE', 'ImE', 'ReHt', 'ImHt', 'ReEt', 'ImEt']
+                    return ('T', [self.aR(lambda c, n=n: n in self.CONDS[c]) for n in names])
+                return self.aR(lambda c: f.attr in self.CONDS[c])
+            name = ctx.get('callmap', {}).get(id(node))
+            if name and name in self.meta:
+                van = self.meta[name].get('vanish', {})
+                if self.meta[name]['typ'] == 'R':
+                    return self.aR(lambda c: bool(van.get(c)))
+            if isinstance(f, ast.Name) and f.id in self.np and f.id in ('sqrt', 'sin'):
+                return self.absval(node.args[0], aenv, ctx) if node.args else T()
+            return T()
+        return T()
 
     def falls_through(self, stmts):
         return not (stmts and isinstance(stmts[-1], (ast.Return, ast.Raise)))
@@ -356,6 +454,7 @@ class Translator:
         if isinstance(node, ast.Attribute):
             if isinstance(node.value, ast.Name) and env.get(node.value.id, (None,))[0] == 'pt':
                 self.field(self.pt_fields, node.attr)
+                ctx['reads'].add(node.attr)
                 return 'pt.%s' % self.safe(node.attr), R
             if node.attr in ('real', 'imag'):
                 e, t = self.expr(node.value, env, ctx)
@@ -454,8 +553,10 @@ class Translator:
                     names = ['ReH', 'ImH', 'ReE', 'ImE', 'ReHt', 'ImHt', 'ReEt', 'ImEt']
                     for n in names:
                         self.field(self.m_fields, n)
+                        ctx['mreads'].add(n)
                     return '(' + ', '.join('m.' + n for n in names) + ')', tuple([R] * 8)
                 self.field(self.m_fields, f.attr)
+                ctx['mreads'].add(f.attr)
                 return 'm.%s' % f.attr, R
             if isinstance(v, ast.Name) and v.id == 'self':
                 if not node.args or not (isinstance(node.args[0], ast.Name) and node.args[0].id == 'pt'):
@@ -475,6 +576,7 @@ class Translator:
                     given[kw.arg] = cv
                 lname, t = self.gen_method(ctx['cls'], f.attr, tuple(sorted(given.items())))
                 ctx['callees'].append(lname)
+                ctx['callmap'][id(node)] = lname
                 return '(%s c m pt)' % lname, t
         # self.CINT[key](self, pt)
         if isinstance(f, ast.Subscript) and isinstance(f.value, ast.Attribute) and isinstance(f.value.value, ast.Name) \
@@ -491,5 +593,6 @@ class Translator:
             fn = self.mod.classes[tcls].methods[table[key]]
             lname, t = self.gen_func(fn, cls=ctx['cls'], defcls=tcls, args=())
             ctx['callees'].append(lname)
+            ctx['callmap'][id(node)] = lname
             return '(%s c m pt)' % lname, t
         raise Reject('%s: call %s' % (ctx['fname'], ast.unparse(node)[:60]))
